@@ -113,6 +113,7 @@ func replayOne(b rep.Behaviour) bool {
 	blocks[0] = parent
 	maxLIH := n.Arbiters.State.GetLastIrreversibleHeight()
 	fellInReorg := false
+	modeTx := map[int]common.Uint256{} // block id -> hash of its mode transaction (no inputs, no outputs)
 	for i, st := range b {
 		a := st.Args()
 		id := rep.Int(a, "id")
@@ -141,6 +142,9 @@ func replayOne(b rep.Behaviour) bool {
 			blocks[id] = blk
 			idOf[blk.Hash()] = id
 			heightOf[blk.Hash()] = blk.Height
+			if len(txs) == 1 {
+				modeTx[id] = txs[0].Hash()
+			}
 		} else {
 			blk = blocks[id]
 		}
@@ -205,6 +209,39 @@ func replayOne(b rep.Behaviour) bool {
 		}
 		if lihAfter > maxLIH {
 			maxLIH = lihAfter
+		}
+		// ---- C15 / C14: the transaction lookup (indexed transaction cache in front of the tx index)
+		// finds an output-less transaction exactly while its block is on the active chain ----
+		onMain := map[int]bool{}
+		for _, x := range mainAfter {
+			onMain[x] = true
+		}
+		// (two RevertToPOW transactions for the same height are the same transaction: the lookup is
+		// about the hash, found while any block carrying it is on the active chain)
+		carriers := map[common.Uint256][]int{}
+		for bid, h := range modeTx {
+			carriers[h] = append(carriers[h], bid)
+		}
+		for h, bids := range carriers {
+			on, onH := false, uint32(0)
+			for _, bid := range bids {
+				if onMain[bid] {
+					on, onH = true, blocks[bid].Height
+				}
+			}
+			_, hgt, err := n.Store.GetTransaction(h)
+			if (err == nil) != on {
+				shape := "missing-on-active-chain"
+				if err == nil {
+					shape = "stale-after-disconnect"
+				}
+				rep.Violation("C15:indexed-tx-cache:"+shape, fmt.Sprintf(
+					"after %s: lookup of the output-less transaction carried by block(s) %v: found=%v at height %d, a carrying block on the active chain=%v",
+					what, bids, err == nil, hgt, on), c)
+			} else if err == nil && hgt != onH {
+				rep.Violation("C14:tx-location:output-less", fmt.Sprintf("after %s: transaction of block(s) %v reported at height %d, on the active chain at height %d",
+					what, bids, hgt, onH), c)
+			}
 		}
 		// ---- conformance with the spec ----
 		verdict := rep.Str(st, "verdict")
